@@ -998,10 +998,12 @@ impl Compiler {
         if let Some(finalizer) = &try_stmt.finalizer {
             self.builder.set_span(finalizer.span);
 
-            // Compile finally block
+            // Compile finally block (a block scope of its own, like the try and catch blocks)
+            self.emit_push_scope();
             for stmt in finalizer.body.iter() {
                 self.compile_statement_impl(stmt)?;
             }
+            self.emit_pop_scope();
 
             // FinallyEnd completes any pending return/throw
             self.builder.emit(Op::FinallyEnd);
